@@ -70,6 +70,10 @@ THEOREMS = [
      "forall (ops : list op) (c : collection), build ops = Ok c -> forall (reqs : list wreq) (st : nat -> hstate), "
      "Forall (fun r => wf_wreq r /\\ tls_refused ops r = false) reqs -> "
      "wire_history auth_ok fixed c st reqs = map Ok (wire_spec ops st reqs)"),
+    ("wire_histories_eq_spec_http",
+     "forall (ops : list op) (c : collection), build ops = Ok c -> forall (reqs : list wreq) (st : nat -> hstate), "
+     "Forall (fun r => wf_wreq r /\\ tls_refused ops r = false) reqs -> "
+     "wire_history auth_ok_http fixed c st reqs = map Ok (wire_spec ops st reqs)"),
     ("sni_decides",
      "forall (ops : list op) (r : wreq) (s : bytes), w_tls r = true -> w_sni r = Some s -> "
      "wire_route ops r = reference_general ops (Some s) None"),
